@@ -68,6 +68,36 @@ impl BlockRegModel {
 }
 /// MODEL of the pub/sub manager for disconnect handling: the connections that hold at least one subscription (pubsub.rs: the
 /// key set of `connections`, the conn -> SubscriberInfo map)
+impl BlockRegModel {
+    /// ASSUMED CONTRACT (blocking.rs BlockingManager::register_blocked -> BlockingRegistry::register_blocked_client: the client is appended to the
+    /// queue of each of its keys): afterwards the connection holds a registration in that database; refused (no such database) = no change
+    #[verifier::external_body]
+    pub fn register_blocked(&mut self, db: usize, conn_id: u64, keys: Vec<Vec<u8>>, op_type: BlockingOp, deadline: Option<Instant>) -> (r: Result<()>)
+        ensures r is Ok ==> final(self).registered@ == old(self).registered@.insert((db, conn_id)), r is Err ==> final(self).registered@ == old(self).registered@,
+    { unimplemented!() }
+}
+impl ListModel {
+    /// StorageEngine::llen (unit llen of shard_lists)
+    #[verifier::external_body]
+    pub fn llen(&self, db: usize, key: &[u8]) -> (r: Result<usize>) ensures r matches Ok(n) ==> n == list_of(*self, db, key@).len(), { unimplemented!() }
+}
+/// #[derive(Clone)] on BlockedState / BlockingOp (dropped by the item extraction, R4): a clone equals its source
+impl Clone for BlockedState {
+    #[verifier::external_body]
+    fn clone(&self) -> (r: Self) ensures r == *self, { unimplemented!() }
+}
+/// `state.keys.iter().map(|(_, key)| key.clone()).collect()` (RXPR site): the key names, in order
+#[verifier::external_body]
+pub fn verif_key_names(keys: &Vec<(DatabaseIndex, Vec<u8>)>) -> (r: Vec<Vec<u8>>)
+    ensures r@.len() == keys@.len(), forall|j: int| 0 <= j < r@.len() ==> (#[trigger] r@[j])@ == keys@[j].1@,
+{ unimplemented!() }
+/// Option<Option<T>>::flatten (std; Result::unwrap_or is in prelude/head.rs)
+pub assume_specification<T>[ Option::<Option<T>>::flatten ](o: Option<Option<T>>) -> (r: Option<T>)
+    ensures r == (match o { Some(x) => x, None => None::<T> });
+/// some key of the blocked client holds an element
+pub open spec fn some_key_ready(m: ListModel, db: usize, keys: Seq<(DatabaseIndex, Vec<u8>)>) -> bool {
+    exists|j: int| 0 <= j < keys.len() && list_of(m, db, (#[trigger] keys[j]).1@).len() > 0
+}
 pub struct PubSubStub { pub subs: Ghost<Set<u64>> }
 impl PubSubStub {
     /// ASSUMED CONTRACT (pubsub.rs PubSubManager::unsubscribe_all: takes the connection out of every channel and pattern set
@@ -256,11 +286,32 @@ impl Server {
 //@@   params drop "&self" add "&mut self"
 //@@   rewrite RT "super::connection::BlockingOp" "BlockingOp"
 //@@   rewrite RCT "conn.send_frame(&response)" "bool" "wake_closure(*old(conn), *final(conn), wakeup.key@, popped_value@, cr)"
+//@@   rewrite RCT "ConnectionState::Blocked(state) => Some(state.clone())," "Option<BlockedState>" "*final(conn) == *old(conn) && cr == (match old(conn).state { ConnectionState::Blocked(s) => Some(s), _ => None::<BlockedState> })"
+//@@   rewrite RXPR "state.keys.iter().map(|(_, key)| key.clone()).collect()" "verif_key_names(&state.keys)"
+//@@   rewrite RFORS 0
+//@@   loop 0
+//@@|     invariant_except_break
+//@@|         self.blocking_manager.registered@.contains((wakeup.db, wakeup.conn_id)),
+//@@|     invariant
+//@@|         key__n <= keys@.len(), forall|d: usize, k: Seq<u8>| #[trigger] list_of(self.storage, d, k) == list_of(old(self).storage, d, k), self.connections.map@ =~= old(self).connections.map@,
+//@@|         keys@.len() == state.keys@.len(), forall|j: int| 0 <= j < keys@.len() ==> (#[trigger] keys@[j])@ == state.keys@[j].1@,
+//@@|     ensures
+//@@|         self.blocking_manager.registered@.contains((wakeup.db, wakeup.conn_id)) || some_key_ready(old(self).storage, wakeup.db, state.keys@),
+//@@|     decreases keys@.len() - key__n,
+//@@   at "self.notify_list_push(wakeup.db, key, 1);" #0
+//@@|     proof { assert(list_of(old(self).storage, wakeup.db, state.keys@[key__n as int - 1].1@).len() > 0); }
     fn wake_client(&mut self, wakeup: WakeupRequest) -> (r: Result<()>)
         ensures
             // (an Err result means the storage engine itself refused the pop or the put-back and says so to the caller)
             r is Ok && wakeup.op_type is BLPop ==> wake_conserves(*old(self), *final(self), wakeup, true),
             r is Ok && wakeup.op_type is BRPop ==> wake_conserves(*old(self), *final(self), wakeup, false),
+            // C13 "never strand a client": the list was found empty (somebody else took the element) and the client is still blocked — it waits
+            // again (a registration in its database, so that later pushes reach it and its timeout fires) unless one of its keys holds an
+            // element by now, in which case that key has been announced again
+            r is Ok && !(wakeup.op_type is XReadBlock) && list_of(old(self).storage, wakeup.db, wakeup.key@).len() == 0
+                && old(self).connections.map@.contains_key(wakeup.conn_id) && (old(self).connections.map@[wakeup.conn_id].state matches ConnectionState::Blocked(s))
+                ==> final(self).blocking_manager.registered@.contains((wakeup.db, wakeup.conn_id))
+                    || some_key_ready(old(self).storage, wakeup.db, (old(self).connections.map@[wakeup.conn_id].state->Blocked_0).keys@),
 //@@ body
 //@@ end
 }
